@@ -40,7 +40,10 @@ class Connection:
         "Line {} is already connected to a GFA instance".format(self))
     previous = gfa._search_duplicate(self)
     if previous:
-      if previous.virtual:
+      # a virtual line is a placeholder for a line of the same type,
+      # or of a not yet known type
+      if previous.virtual and \
+          previous.record_type in [self.record_type, "\n"]:
         return self._substitute_virtual_line(previous)
       else:
         return self._process_not_unique(previous)
